@@ -43,3 +43,32 @@ theorem C15_multi_empty_column (cfg : Cfg) (ext : Ext) (ps : List (List Atom)) (
   cases multiEval cfg ext ps hs <;> simp
 
 end NucleoVerif
+
+namespace NucleoVerif
+
+/-- a multi-column pattern all of whose columns are empty (what `MultiPattern::is_empty` tests and the worker's
+    trivial path relies on) matches every item with score 0 -/
+theorem C15_multi_all_empty (cfg : Cfg) (ext : Ext) : ∀ (ps : List (List Atom)) (hs : List (Rep × List Nat)),
+    (∀ p ∈ ps, p = []) → multiEval cfg ext ps hs = some 0 := by
+  intro ps
+  induction ps with
+  | nil => intro hs _; cases hs <;> rfl
+  | cons p ps ih =>
+    intro hs hall
+    cases hs with
+    | nil => rfl
+    | cons h hs =>
+      have hp : p = [] := hall p (List.mem_cons_self ..)
+      subst hp
+      rw [C15_multi_empty_column]
+      exact ih hs (fun q hq => hall q (List.mem_cons_of_mem _ hq))
+
+/-- the hypothesis `EmpOk` of the worker-protocol theorems (C06 / C07), instantiated with the scoring function the worker
+    uses: when the pattern ids flagged empty are those whose columns are all empty, an empty pattern gives every item
+    score 0 -/
+theorem C15_empOk (cfg : Cfg) (ext : Ext) (patterns : Nat → List (List Atom)) (columns : Nat → List (Rep × List Nat)) (emp : Nat → Bool)
+    (hemp : ∀ p, emp p = true → ∀ q ∈ patterns p, q = []) :
+    ∀ p it, emp p = true → multiEval cfg ext (patterns p) (columns it) = some 0 :=
+  fun p it h => C15_multi_all_empty cfg ext _ _ (hemp p h)
+
+end NucleoVerif
